@@ -292,7 +292,7 @@ func unencodable(t types.Type, depth int) string {
 
 func init() {
 	checks["C14"] = checkC14
-	explanations["C14"] = "NARROW: equality of the two parties' keys, conformance to SP 800-108 and independence of sessions are numerical and NOT decided. Decided: (a) the three suites derive keys with the same shape: sizes from EncryptAlg.KeySize() and, only if MacAlg!=0, MacAlg.KeySize(); nistkdf.KDF(PRFHash, secret, context, (sek+svk)*8); SEK=out[:sek], SVK=out[sek:]; (b) persistence completeness: each session type's UnmarshalCBOR assigns every field of the session and of the embedded SessionCrypter from the decoded persisted value, and MarshalCBOR reads every field except the re-derived Cipher; (c) the KDF resets its PRF before every block (a MAC is never continued across blocks); (d) degenerate Diffie-Hellman parameters are rejected: the DH derivation returns a key only after both range comparisons of the peer value and both comparisons of the shared secret passed; the ECDH path requires NewPublicKey and ECDH err==nil, OAEP requires DecryptOAEP err==nil; (e) fresh secrets derive from the rand argument; (f) every registered encrypt-then-MAC cipher suite derives keys with the PRF hash of its MAC algorithm (hash read from the MAC registration)."
+	explanations["C14"] = "NARROW: equality of the two parties' keys, conformance to SP 800-108 and independence of sessions are numerical and NOT decided. Decided: (a) the three suites derive keys with the same shape: sizes from EncryptAlg.KeySize() and, only if MacAlg!=0, MacAlg.KeySize(); nistkdf.KDF(PRFHash, secret, context, (sek+svk)*8); SEK=out[:sek], SVK=out[sek:]; (b) persistence completeness: each session type's UnmarshalCBOR assigns every field of the session and of the embedded SessionCrypter from the decoded persisted value, and MarshalCBOR reads every field except the re-derived Cipher; (c) the KDF resets its PRF before every block (a MAC is never continued across blocks); (d) degenerate Diffie-Hellman parameters are rejected: the DH derivation returns a key only after both range comparisons of the peer value and both comparisons of the shared secret passed; the ECDH path requires NewPublicKey and ECDH err==nil, OAEP requires DecryptOAEP err==nil; (e) fresh secrets derive from the rand argument; (f) every registered encrypt-then-MAC cipher suite derives keys with the PRF hash of its MAC algorithm (hash read from the MAC registration). (g) the secret argument of every KDF call never contains the result of big.Int.Bytes() (variable width); a modular-exponentiation secret is passed in the buffer filled by FillBytes."
 }
 
 // c14PrfMatchesMac: for encrypt-then-MAC suites the KDF's PRF hash is the hash
